@@ -1409,6 +1409,12 @@ var brokenTags = []string{
 	"<%= fn(a { return a } %>",
 	"<%= a & b %>",
 	"<%= if ([1]) { %>a<% } %>",
+	// the rest of the broken construct on later lines: follow-up messages then carry later line numbers
+	"<%= for (x in xs { %>\nbody\n<% } %>",
+	"<%= if (n1 == ) { %>\nbody\n<% } %>",
+	"<%= for (i, v) xs { %>\nbody\n\n<% } %>",
+	"<%= if n1 { %>\nbody\n<% } %>",
+	"<%= fn(a { return a } %>\nx\n<%= 1 ^ 2 %>\n<% let = 3 %>",
 }
 
 // genProgram draws one program.
